@@ -28,7 +28,7 @@ COMPILERS = {
 MASKS = {
     "grounder": dict(static_guards=0.6),
     "cerm": dict(conditional=True, cond_prob=0.6),
-    "dcrm": dict(disjunction=True, cond_prob=0.5, op_bias={"or": 4, "implies": 1}),
+    "dcrm": dict(disjunction=True, cond_prob=0.5, op_bias={"or": 4, "implies": 1}, incdec_plain_cond=0.85),
     "ncrm": dict(negation=True, numeric=False, objfluents=False, implies=False, equality=False, bool_expr_assign=False, op_bias={"not": 3}),
     "qrm": dict(quantifiers=True, op_bias={"exists": 2, "forall": 2}),
     "utfrm": dict(objfluents=True),
@@ -223,6 +223,16 @@ def goal_directed(P, seed, L=3):
             if not changed:
                 return P
             rng.shuffle(changed)
+            # prefer literals on fluents that some CONDITIONAL effect writes: whether they hold depends on the
+            # conditions, which is where the compilers' case analysis lives
+            ctargets = {(e if a["kind"] == "inst" else e["e"])["f"]["name"] for a in P["actions"] for e in a["effects"]
+                        if (e if a["kind"] == "inst" else e["e"])["c"] != upj.TRUE_E}
+
+            def lit_fluent(l):
+                x = l["args"][0] if l["op"] in ("not", "eq") else l
+                return x["name"]
+
+            changed.sort(key=lambda l: lit_fluent(l) not in ctargets)
             Q = copy.deepcopy(P)
             Q["goals"] = changed[: rng.randint(1, 2)]
             upj.build(Q)  # the variant must still be a well-formed problem
@@ -304,8 +314,10 @@ def problem_features(P):
         if len(nassign) != len(set(nassign)):
             fs.add("multicondassign")
         for e in effs:
-            if e["kind"] != "assign" and any(n["op"] in ("or", "implies", "iff", "exists", "not") for n in _walk(e["c"])):
-                fs.add("disjcondinc")
+            if e["kind"] != "assign" and any(n["op"] in ("or", "implies", "iff", "exists") or
+                                             (n["op"] == "not" and n["args"][0]["op"] in ("and", "or", "not", "implies", "iff", "exists", "forall"))
+                                             for n in _walk(e["c"])):
+                fs.add("disjcondinc")  # a conditional increase/decrease whose condition is (or normalises to) a disjunction
     for e in _exprs(P):
         for n in _walk(e):
             if n["op"] in ("eq", "le", "lt") and all(x["op"] in ("const", "obj") for x in n["args"]):
